@@ -33,8 +33,13 @@ inductive Op
   | cam (name key : Bytes) (pred : Filter) (tm fm : List Mutation)
   | rmw (name key : Bytes) (rules : List RmwRule)
   | read (name : Bytes) (keys : List Bytes) (ranges : List RowRange) (limit : Int) (f : Filter)
+  /-- a read whose `failAt`-th `stream.Send` fails (harness-injected transport error) -/
+  | readFail (name : Bytes) (failAt : Nat) (keys : List Bytes) (ranges : List RowRange)
+      (limit : Int) (f : Filter)
   | keys (name : Bytes)
   | gc (name : Bytes)
+  /-- a GC pass with client writes arriving at its successive lock reversals -/
+  | gcw (name : Bytes) (writes : List (Bytes × List Mutation))
   | clock (now : Int)
   | rand (r : Int)
 deriving Inhabited
@@ -134,8 +139,17 @@ def step (s : Server) : Op → Server × Resp
       match readRows t s.rnd keys ranges limit f with
       | .error c => (s, .err c)
       | .ok rs => (s, .rows rs)
+  | .readFail name failAt keys ranges limit f =>
+    s.withTable name fun t =>
+      match readRows t s.rnd keys ranges limit f with
+      | .error c => (s, .err c)
+      | .ok rs => if failAt > 0 && sendCount 0 rs ≥ failAt then (s, .err .other) else (s, .rows rs)
   | .keys name => s.withTable name fun t => (s, .keyList (t.rows.map (·.key)))
   | .gc name => s.withTable name fun t => (s.setTable name (gcPass s.now t), .ok)
+  | .gcw name writes =>
+    s.withTable name fun t =>
+      let (t', sts) := gcInterleaved s.now t writes
+      (s.setTable name t', .statuses sts)
 
 def run (s : Server) : List Op → Server × List Resp
   | [] => (s, [])
